@@ -32,6 +32,7 @@ class CFG:
         self.block_in = {}       # block id -> entry vertex id
         self.block_last = {}     # block id -> last vertex id
         self.of_node = {}        # node index -> [vertex ids] (an expression may appear once as statement)
+        self.decl_vertex = {}    # decl id -> vertex of the (possibly synthesised, one-declarator) DeclStmt
         for bid, b in self.blocks.items():
             v = self._add(bid, 'in', None, None)
             self.block_in[bid] = v
@@ -41,6 +42,9 @@ class CFG:
                 w = self._add(bid, i, el, n)
                 if n is not None:
                     self.of_node.setdefault(n.i, []).append(w)
+                    if n.k == 'DeclStmt':
+                        for d, init in n.r.get('decls', []):
+                            self.decl_vertex.setdefault(d, w)
                 self.succ[last].append((w, None))
                 last = w
             self.block_last[bid] = last
@@ -183,12 +187,19 @@ class CFG:
         expression is an element; statements that are not (CompoundStmt, IfStmt…) raise."""
         i = node.i if isinstance(node, Node) else node
         vs = self.of_node.get(i)
+        if not vs and isinstance(node, Node) and node.k == 'DeclStmt':
+            # `T a, b;` is split by clang's CFG into one synthesised DeclStmt per declarator
+            ds = [self.decl_vertex[d] for d, _ in node.r.get('decls', []) if d in self.decl_vertex]
+            if ds:
+                return ds[-1]
         if not vs:
             raise AnalysisBroken('node %r is not a CFG element of %s (unreachable code or pruned edge?)' % (node, self.fn.q))
         return vs[0]
 
     def has_vertex(self, node):
-        return bool(self.of_node.get(node.i))
+        if self.of_node.get(node.i):
+            return True
+        return node.k == 'DeclStmt' and any(d in self.decl_vertex for d, _ in node.r.get('decls', []))
 
     def handler_entry(self, pred):
         """entry vertex of the catch handler whose CXXCatchStmt node satisfies pred"""
